@@ -13,6 +13,7 @@ def text(fn, e):
 
 def run(prog, chk):
     drain_before_next_read(prog, chk)
+    blocking_reader_table(prog, chk)
     _run(prog, chk)
 
 
@@ -296,3 +297,48 @@ def _reach(fn, b, stop):
         for e in fn.succ[x]:
             work.append(e.dst)
     return seen
+
+
+def blocking_reader_table(prog, chk):
+    """KSI_IO_readSocket over chunk sequences: each recv continues where the previous one ended and asks for what is missing."""
+    from ksirules.bufinterp import BufInterp
+    from ksirules.interp import TOP, Ptr, succeed_model
+    chk.rule("C14.reader", "blocking socket reader: every chunk is placed behind the previous one and exactly `size` bytes are collected "
+                           "whatever the chunking (decision table over recv results)", floor=8)
+    fn = prog.fn("KSI_IO_readSocket", "io.c")
+    fdp, bp, sp, cp = [p["n"] for p in fn.params]
+    NETERR = prog.const("KSI_NETWORK_ERROR")
+    for size, chunks in ((10, [10]), (10, [4, 6]), (10, [1, 1, 8]), (10, [9, 1]), (10, [3, 3, 3, 1]), (2, [1, 1]), (10, [4, 0]), (10, [0]), (10, [7, -1])):
+        it = iter(chunks)
+        calls = []
+
+        def recv(I, p, node, args):
+            calls.append((I.as_off(args[1]), args[2]))
+            return next(it, 0)
+        ov = {"recv": recv, "__errno_location": lambda I, p, n, a: Ptr("ERRNO")}
+        inputs = {fdp: 5, bp: Ptr("BUF"), sp: size, cp: Ptr("CNT"), "*ERRNO": 104, "ERRNO[0]": 104}
+        I = BufInterp(fn, {"BUF": size, "ERRNO": 1}, inputs=inputs, call_model=succeed_model(prog, ov), on_unknown="stop", prog=prog, loop_bound=len(chunks) + 3)
+        paths = I.run()
+        chk.paths += len(paths)
+        inst = "readSocket[size=%d,recv returns %s]" % (size, chunks)
+        if len(paths) != 1 or paths[0].undetermined:
+            raise AnalysisBroken("KSI_IO_readSocket: evaluation not determined for %s: %s" % (inst, [q.undetermined[:1] for q in paths]))
+        q = paths[0]
+        good = [c for c in chunks if c > 0]
+        want_calls = []
+        pos = 0
+        for c in chunks:
+            want_calls.append((pos, size - pos))
+            if c <= 0:
+                break
+            pos += c
+            if pos >= size:
+                break
+        got_calls = [(o.off if o is not None and o.base == "BUF" else None, n) for o, n in calls]
+        cnt = [t[2] for t in q.stores("*" + cp)]
+        complete = sum(good) == size and all(c > 0 for c in chunks)
+        ok = got_calls == want_calls and cnt[-1:] == [pos] and ((complete and q.ret == 0) or (not complete and q.ret not in (0, None)))
+        chk.ob("C14.reader", inst, ok,
+               "expected recv(offset, wanted) = %s, %d bytes reported, %s; source: recv calls %s, reported %s, status %s"
+               % (want_calls, pos, "KSI_OK" if complete else "an error", got_calls, cnt[-1:], hex(q.ret) if isinstance(q.ret, int) else q.ret),
+               loc=fn.loc(), fn=fn)
